@@ -187,6 +187,16 @@ class BitEval:
                     for b in bs:
                         out += b
                     return out
+                if arr[0] == "call":
+                    # `i32::from_le_bytes(v.to_le_bytes())`: the bits of v, reordered when the two byte orders differ
+                    m2 = re.search(r"core::num::<impl (u|i)(\d+)>::to_(be|le)_bytes$", arr[1] or "")
+                    if m2 and m2.group(2) == m.group(2) and len(arr[2]) == 1:
+                        vb = self.bits(arr[2][0], int(m.group(2)), depth + 1)
+                        if len(vb) == int(m.group(2)):
+                            if m2.group(3) == m.group(3):
+                                return vb
+                            bs = [vb[i * 8:(i + 1) * 8] for i in range(len(vb) // 8)][::-1]
+                            return [x for b in bs for x in b]
                 return [TOP] * int(m.group(2))
             if c.endswith("::clone") and len(s[2]) == 1:
                 return self.bits(s[2][0], want, depth + 1)
@@ -474,23 +484,29 @@ def encode_bytes(F, fn_path, hdr_prefix="", depth=0, known=None):
     out = []
     # vec![a, b, c] style encoders: one array aggregate
     arrs = find_aggs(B, r"^array$")
-    calls = []
-    b = 0
-    seen = set()
-    while b is not None and b not in seen:
-        seen.add(b)
+    # the calls on the way to the return: the same on every path (a branch that only asserts, as the expansion of
+    # `debug_assert_eq!(bytes.len(), N)` does, decides nothing about what is written)
+    can_return = {x for x in range(len(B.blocks)) if any(B.blocks[y]["term"]["k"] == "return" for y in B.reachable(x))}
+    paths, stack = [], [(0, (), frozenset())]
+    while stack:
+        b, cs, seen = stack.pop()
+        if b in seen or len(paths) + len(stack) > 256:
+            return None, "encoder %s is not loop-free (block %d)" % (fn_path, b)
         t = B.blocks[b]["term"]
         if t["k"] == "call":
-            calls.append(t)
-        nxt = B.succ(b)
-        nxt = [x for x in nxt if not B.blocks[x].get("cleanup")]
-        if len(nxt) != 1:
-            if t["k"] == "return":
-                break
-            if len(nxt) == 0:
-                break
-            return None, "encoder %s is not straight-line (block %d has %d successors)" % (fn_path, b, len(nxt))
-        b = nxt[0]
+            cs = cs + (b,)
+        nxt = [x for x in B.succ(b) if not B.blocks[x].get("cleanup") and x in can_return]
+        if t["k"] == "return" or not nxt:
+            paths.append(cs)
+            continue
+        for x in nxt:
+            stack.append((x, cs, seen | {b}))
+    is_write = lambda bi: (B.blocks[bi]["term"].get("callee") or "").endswith(("Vec::<T, A>::push", "Vec::<T, A>::extend_from_slice"))
+    wseqs = {tuple(bi for bi in cs if is_write(bi)) for cs in paths}
+    if len(wseqs) != 1:
+        return None, "encoder %s is not straight-line (%d different sequences of writes over its paths)" % (fn_path, len(wseqs))
+    longest = max(paths, key=len) if paths else ()
+    calls = [B.blocks[bi]["term"] for bi in longest]
 
     def rename(bits):
         return [(("fld", hdr_prefix + x[1], x[2]) if isinstance(x, tuple) and x[0] == "fld" else x) for x in bits]
